@@ -1214,6 +1214,7 @@ def run(ctx):
                     "tolerance policy (1e-9 relative + the engine's own mass-balance acceptance sqrt(total*1e-25) per speciation) computed in python",
                     "translator/c11_initmix.py (clang JSON AST of Phreeqc::init_mix, both branches -> Gallina leaf expressions and guard shapes; of Phreeqc::multi_D -> the strncmp name tests)",
                     "harness/c11_mcd.cpp (reads diffc_max, nmix, mcd_substeps, timest from the instance right after init_mix)",
+                    "python mirror fill_setup of coq/C11/Setup.v (cell set-up of read_transport) - the Coq checker evaluates setup_cfg itself on pool Q",
                     "multi_D: the species fluxes (find_J) are arbitrary data in the bookkeeping theorems; only the explicit branch of fill_m_s / step 3 / the negative-total repair is modelled"]
     ctx.notes += ["floating-point rounding of the engine is not modelled; cases whose 1.5*maxmix is within 1e-9 of an integer are skipped (counted as nmix-rounding-ambiguous)",
                   "multicomponent diffusion: bookkeeping model + inventory checks; implicit diffusion and stagnant zones: inventory checks only",
